@@ -28,6 +28,7 @@ func Run(m *mon.M) {
 	m.Require("ceq.queries", 5000)
 	m.Require("ceq.single_cell_multi_shape", 200)
 	m.Require("locate.queries", 5000)
+	m.Require("cellrel.multi_loop_cells", 5000)
 	m.Require("collection.vertices_at_index_cell_centre", 100)
 	m.Require("collection.many_loop_shapes", 100)
 	maxE := m.N(1500, 10000)
@@ -106,6 +107,22 @@ func collection(c *mon.Case, maxE int) {
 	idx := s2.NewShapeIndex()
 	total := 0
 	var centreCells []s2.CellID
+	// one collection in five is what is left after removing other shapes: one or two extra shapes are added
+	// first (so the surviving shapes have ids above the number of shapes) and removed again before or after a
+	// build of the index
+	off := 0
+	var extras []s2.Shape
+	removeAfterBuild := false
+	if r.Intn(5) == 0 {
+		for k := 0; k < 1+r.Intn(2); k++ {
+			e := gen.MakeObj(r, gen.Near(r, ctr, scale), scale*(0.2+r.Float64()), 40).Shape
+			idx.Add(e)
+			extras = append(extras, e)
+			off++
+		}
+		removeAfterBuild = r.Intn(2) == 0
+		c.Count("collection.after_removal", 1)
+	}
 	switch r.Intn(8) {
 	case 0: // one areal shape with vertices exactly at the centres of its index cells
 		sp, cells := gen.VerticesAtIndexCellCentres(r, gen.RandLoopSpec(r, 80))
@@ -142,6 +159,12 @@ func collection(c *mon.Case, maxE int) {
 	if c.I < 3 {
 		c.Sample(map[string]any{"shapes": kinds, "edges": total, "center": gen.Hex(ctr), "scale": scale})
 	}
+	if removeAfterBuild {
+		idx.Build()
+	}
+	for _, e := range extras {
+		idx.Remove(e)
+	}
 	idx.Build()
 	cells := cellList(idx.VerifCells())
 	multi := len(cells) > 1 || len(objs) > 1
@@ -169,8 +192,10 @@ func collection(c *mon.Case, maxE int) {
 					break
 				}
 			}
-			if int(cl.ShapeID) < len(objs) && objs[cl.ShapeID].Dim == 2 {
-				if w := objs[cl.ShapeID].ContainsInterior(id.Point()); w != cl.ContainsCenter {
+			if k := int(cl.ShapeID) - off; k < 0 || k >= len(objs) {
+				c.Violation("ShapeIndex/structure/unknown-shape-id/wrong-answer", fmt.Sprintf("cell %s lists shape id %d, which no shape of the index has", id.ToToken(), cl.ShapeID), baseDet())
+			} else if objs[k].Dim == 2 {
+				if w := objs[k].ContainsInterior(id.Point()); w != cl.ContainsCenter {
 					d := baseDet()
 					d["cell"], d["shape_id"] = id.ToToken(), cl.ShapeID
 					c.Violation("ShapeIndex/containsCenter/wrong-answer", fmt.Sprintf("cell %s shape %d containsCenter=%v, ring parity of the centre says %v", id.ToToken(), cl.ShapeID, cl.ContainsCenter, w), d)
@@ -208,7 +233,7 @@ func collection(c *mon.Case, maxE int) {
 				listed := false
 				if ok {
 					for _, cl := range idx.VerifCell(id) {
-						if int(cl.ShapeID) == si {
+						if int(cl.ShapeID)-off == si {
 							j := sort.SearchInts(cl.Edges, e)
 							listed = j < len(cl.Edges) && cl.Edges[j] == e
 						}
@@ -451,8 +476,118 @@ func collection(c *mon.Case, maxE int) {
 // cellRelations: Loop/Polygon ContainsCell and IntersectsCell against cells
 // whose relation to a star loop is known by construction or decided by exact
 // vertex/edge tests.
+// multiLoopCellRelations: polygons of several small loops close to each other (islands side by side, some
+// with a hole), so that edges of different loops share index cells; cells between, inside and around them.
+func multiLoopCellRelations(c *mon.Case) {
+	r := c.R
+	ctr := gen.RandCenter(r)
+	R := gen.LogUniform(r, 1e-4, 0.3)
+	k := 2 + r.Intn(4)
+	x, y, z := gen.Frame(ctr)
+	type isl struct {
+		sp   gen.LoopSpec
+		hole *gen.LoopSpec
+	}
+	var islands []isl
+	var loops []*s2.Loop
+	var models []*ref.LoopModel
+	for j := 0; j < k; j++ {
+		cj := gen.AtPolar(x, y, z, R, 2*math.Pi*float64(j)/float64(k))
+		rad := R * math.Sin(math.Pi/float64(k)) * (0.5 + 0.4*r.Float64())
+		sp := gen.StarLoop(r, cj, 3+r.Intn(5), rad*0.7, rad)
+		it := isl{sp: sp}
+		loops = append(loops, sp.Loop())
+		models = append(models, ref.NewLoopModel(gen.Vs(sp.Vs), origin, refDir))
+		if r.Intn(3) == 0 {
+			h := gen.StarLoop(r, cj, 3+r.Intn(5), sp.RMin*0.3, sp.RMin*0.5)
+			it.hole = &h
+			loops = append(loops, h.Loop())
+			models = append(models, ref.NewLoopModel(gen.Vs(h.Vs), origin, refDir))
+		}
+		islands = append(islands, it)
+	}
+	r.Shuffle(len(loops), func(i, j int) { loops[i], loops[j] = loops[j], loops[i] })
+	poly := s2.PolygonFromLoops(loops)
+	in := func(p s2.Point) bool {
+		n := 0
+		for _, m := range models {
+			if m.Contains(gen.V(p)) {
+				n++
+			}
+		}
+		return n%2 == 1
+	}
+	for q := 0; q < 16; q++ {
+		it := islands[r.Intn(len(islands))]
+		var p s2.Point
+		switch r.Intn(4) {
+		case 0:
+			p = gen.Near(r, ctr, R*2*r.Float64())
+		case 1:
+			p = gen.Near(r, it.sp.Center, it.sp.RMax*1.5*r.Float64())
+		default:
+			p = gen.BoundaryProbes(r, it.sp.Vs, 1)[0]
+		}
+		lvlMin := s2.MaxDiagMetric.MinLevel(R * 2)
+		if lvlMin > 30 {
+			lvlMin = 30
+		}
+		lvl := lvlMin + r.Intn(31-lvlMin)
+		cell := s2.CellFromCellID(s2.CellFromPoint(p).ID().Parent(lvl))
+		var samples []s2.Point
+		for j := 0; j < 4; j++ {
+			samples = append(samples, cell.Vertex(j), s2.Point{Vector: cell.Vertex(j).Add(cell.Vertex((j + 1) % 4).Vector).Normalize()})
+		}
+		samples = append(samples, cell.Center())
+		allIn, anyIn := true, false
+		for _, sm := range samples {
+			if in(sm) {
+				anyIn = true
+			} else {
+				allIn = false
+			}
+		}
+		diag := cell.Vertex(0).Distance(cell.Vertex(2)).Radians()
+		// clear-cut: well inside one island's inner ring (outside its hole's outer disc) / well outside every island
+		deepIn, farOut := false, true
+		for _, o := range islands {
+			d := cell.Center().Distance(o.sp.Center).Radians()
+			if d-diag <= o.sp.RMax*1.02+1e-12 {
+				farOut = false
+			}
+			if d+diag < o.sp.RMin*0.98 && (o.hole == nil || d-diag > o.hole.RMax*1.02) {
+				deepIn = true
+			}
+		}
+		det := map[string]any{"loops": len(loops), "islands": k, "cell": cell.ID().ToToken(), "level": lvl, "center": gen.Hex(ctr), "radius": R}
+		c.Count("cellrel.cells", 1)
+		c.Count("cellrel.multi_loop_cells", 1)
+		c.Distinct(uint64(cell.ID()), uint64(c.I))
+		contains, intersects := poly.ContainsCell(cell), poly.IntersectsCell(cell)
+		if contains && !allIn {
+			c.Violation("Polygon/ContainsCell/true-but-cell-point-outside/wrong-answer", "Polygon.ContainsCell is true but a vertex/edge midpoint/centre of the cell is outside", det)
+		}
+		if !intersects && anyIn {
+			c.Violation("Polygon/IntersectsCell/false-but-common-point/wrong-answer", "Polygon.IntersectsCell is false but the cell and the region share a point", det)
+		}
+		if contains && !intersects {
+			c.Violation("Polygon/ContainsCell-implies-IntersectsCell/wrong-answer", "ContainsCell but not IntersectsCell", det)
+		}
+		if deepIn && !contains {
+			c.Violation("Polygon/ContainsCell/false-for-cell-deep-inside/wrong-answer", "Polygon.ContainsCell is false for a cell well inside one of the polygon's shells", det)
+		}
+		if farOut && (intersects || contains) {
+			c.Violation("Polygon/IntersectsCell/true-for-cell-far-outside/wrong-answer", "Polygon.IntersectsCell is true for a cell well outside every loop of the polygon", det)
+		}
+	}
+}
+
 func cellRelations(c *mon.Case) {
 	r := c.R
+	if r.Intn(2) == 0 {
+		multiLoopCellRelations(c)
+		return
+	}
 	sp := gen.RandLoopSpec(r, 300)
 	if sp.RMin <= 0 {
 		return
